@@ -331,7 +331,8 @@ def optimum(inst, node_limit=2_000_000):
         rec()
     except OverflowError:
         return None, nodes[0]
-    return int(best[0]), nodes[0]
+    b = best[0]
+    return (int(b) if float(b).is_integer() else b), nodes[0]
 
 
 def lower_bounds(inst):
